@@ -2,6 +2,9 @@
 
 mod rawx;
 mod rawx_run;
+mod vecreads;
+mod vecx;
+mod vecx_run;
 mod report;
 mod scratch;
 mod seqx;
@@ -24,6 +27,7 @@ fn main() {
     } else if args[1] == "worker" {
         match args[2].as_str() {
             "rawx" => rawx_run::worker(&args[3]),
+            "vecx" => vecx_run::worker(&args[3]),
             e => panic!("unknown engine {e}"),
         }
         0
@@ -37,6 +41,21 @@ fn main() {
                 let kf = report::KnownFindings::load();
                 let mut run = report::Run::new(p, tier, "rawx");
                 rawx_run::add(&mut run, &kf, p, tier, if tier == "quick" { 40 } else { 1500 });
+                run.cov("rule", serde_json::json!(rawx_run::RULE));
+                run.finish()
+            }
+            p @ ("C03" | "C04" | "C07" | "C16") => {
+                let kf = report::KnownFindings::load();
+                let mut run = report::Run::new(p, tier, "vecx");
+                vecx_run::add(&mut run, &kf, p, tier, if tier == "quick" { 45 } else { 1500 });
+                run.cov("rule", serde_json::json!(rawx_run::RULE));
+                run.finish()
+            }
+            "C13" => {
+                let kf = report::KnownFindings::load();
+                let mut run = report::Run::new("C13", tier, "rawx+vecx");
+                rawx_run::add(&mut run, &kf, "C13", tier, if tier == "quick" { 15 } else { 600 });
+                vecx_run::add(&mut run, &kf, "C13", tier, if tier == "quick" { 30 } else { 900 });
                 run.cov("rule", serde_json::json!(rawx_run::RULE));
                 run.finish()
             }
@@ -55,11 +74,30 @@ fn replay(file: &str) -> i32 {
         return 2;
     };
     let doc: serde_json::Value = serde_json::from_str(&s).expect("replay file must be JSON");
-    match doc["engine"].as_str().unwrap_or("") {
+    match doc["replay"]["engine"].as_str().unwrap_or("") {
         "rawx" => rawx_run::replay(&doc),
+        "vecx" => vecx_run::replay(&doc),
         e => {
             eprintln!("unknown engine {e}");
             2
         }
+    }
+}
+
+pub fn finish_replay(doc: &serde_json::Value, property: &str, outcomes: Vec<Vec<String>>) -> i32 {
+    if outcomes[0] != outcomes[1] {
+        eprintln!("MACHINERY-ERROR: replay is not deterministic: {outcomes:?}");
+        return 3;
+    }
+    println!("history: {}", doc["history"]);
+    if outcomes[0].is_empty() {
+        println!("replay: no violation of {property} at the last step");
+        0
+    } else {
+        for s in &outcomes[0] {
+            println!("replay: {s}");
+        }
+        println!("VIOLATION property={property} replay={}", doc["path"]);
+        1
     }
 }
